@@ -25,7 +25,7 @@ RUN_TIMEOUT_S = 90.0
 MIN_BUDGET = 200
 
 TIERS = {
-    'quick': {'runs': 40000, 'classes': 8, 'budget_s': 80},
+    'quick': {'runs': 40000, 'classes': 8, 'budget_s': 60},
     'thorough': {'runs': 900000, 'classes': 32, 'budget_s': 1100},
 }
 
